@@ -26,7 +26,7 @@ func C05(r *core.Run) {
 		"(R05.2) with versioning enabled, the current version is archived under its own id before it is replaced; (R05.3/R09.1n) bucketObject.data is never nil while the key is in the bucket, nilable iterator fields are guarded; " +
 		"(R05.4) archived versions are discarded only by rmVersion/promote with the addressed id, the current version only when its id was addressed, the key only when nothing remains, setVersioning touches nothing but the status; " +
 		"(R05.5) every put draws a fresh id from the generator, whose counter is incremented under its mutex and is part of the id; " +
-		"(R05.6) a current version is overwritten without archiving only when the bucket was never versioned; (R01.6) bytes and metadata maps of stored versions are never modified (an archived version keeps exactly its own metadata). (R05.7) a freshly built version that becomes current outside put carries an id from the generator. (R05.8) whether a handler uses the version-aware backend call depends on the backend being versioned and on the request, never on the bucket's current versioning status: version ids stay addressable while versioning is suspended."
+		"(R05.6) a current version is overwritten without archiving only when the bucket was never versioned; (R01.6) bytes and metadata maps of stored versions are never modified (an archived version keeps exactly its own metadata). (R05.7) a freshly built version that becomes current outside put carries an id from the generator. (R05.8) whether a handler uses the version-aware backend call depends on the backend being versioned and on the request, never on the bucket's current versioning status: version ids stay addressable while versioning is suspended. (R05.9) promote stores the newest archived entry as current and removes it from the archive before reporting success; a key is dropped only when nothing was left to promote."
 	r.NotDecided = "that old versions keep their bytes (follows from R01.6 + immutability of bucketData, checked under C07), 'most recently created' order of remaining versions, multi-delete semantics, value-level uniqueness of ids beyond the counter"
 	ctx := oblig.NewCtx(r.P)
 	installNonNilHook(r, ctx)
@@ -42,6 +42,7 @@ func C05(r *core.Run) {
 	rule056(r, ctx)
 	rule057(r)
 	rule058(r)
+	rule059(r)
 	rule016(r, "C05")
 }
 
@@ -729,4 +730,82 @@ func isErrOf(cond ssa.Value, c ssa.CallInstruction) bool {
 		}
 	}
 	return false
+}
+
+// rule059 — deleting the current version uncovers the newest remaining one.
+func rule059(r *core.Run) {
+	r.Rule("R05.9", "bucketObject.promote returns true only after it stored, as the object's current version, the value of the entry SeekToLast found and deleted that same entry's key from the archive; in rmVersion the key is removed from the bucket (objects.Delete) only on the side where promote() returned false (nothing was left to promote): the newest remaining version becomes current, and a key with remaining versions is never dropped")
+	pf := mustFunc(r, "s3mem.(*bucketObject).promote")
+	if pf != nil {
+		var last *ssa.Call
+		var store *ssa.Store
+		var del *ssa.Call
+		core.Instrs(pf, func(in ssa.Instruction) {
+			switch x := in.(type) {
+			case *ssa.Call:
+				cn := r.P.CalleeName(x)
+				if strings.HasSuffix(cn, "SkipList).SeekToLast") {
+					last = x
+				}
+				if strings.HasSuffix(cn, "SkipList).Delete") {
+					del = x
+				}
+			case *ssa.Store:
+				if fa, ok := x.Addr.(*ssa.FieldAddr); ok && r.P.FieldName(fa) == "s3mem.bucketObject.data" {
+					store = x
+				}
+			}
+		})
+		okP := last != nil && store != nil && del != nil
+		why := "promote no longer seeks the newest archived entry, stores it as current and deletes it from the archive"
+		if okP {
+			vs := r.P.SliceOf(store.Val, core.SliceOpts{Depth: -1})
+			ks := r.P.SliceOf(del.Call.Args[1], core.SliceOpts{Depth: -1})
+			if !vs.HasValue(last) || !ks.HasValue(last) {
+				okP, why = false, "the promoted value or the deleted key does not come from the entry SeekToLast found"
+			}
+			for _, ret := range core.Returns(pf) {
+				if len(ret.Results) == 1 {
+					if k, ok := ret.Results[0].(*ssa.Const); ok && k.Value != nil && k.Value.String() == "true" {
+						if !core.Dominates(store, ret) || !core.Dominates(del, ret) {
+							okP, why = false, "promote can report success without having stored the promoted version / removed it from the archive"
+						}
+					}
+				}
+			}
+		}
+		r.Check(okP, "R05.9", key(fname(r, pf), "promotes the newest archived entry"), r.P.Pos(pf.Pos()), "data ← SeekToLast().Value(); versions.Delete(its key); then true", why)
+	}
+	rv := mustFunc(r, "s3mem.(*bucket).rmVersion")
+	if rv == nil || pf == nil {
+		return
+	}
+	n := 0
+	core.Instrs(rv, func(in ssa.Instruction) {
+		c, ok := in.(*ssa.Call)
+		if !ok || !strings.HasSuffix(r.P.CalleeName(c), "SkipList).Delete") {
+			return
+		}
+		rs := r.P.SliceOf(c.Call.Args[0], core.SliceOpts{Depth: -1})
+		if !rs.Has("field:s3mem.bucket.objects") {
+			return
+		}
+		n++
+		okG := false
+		for _, ec := range expandedConds(c) {
+			cd := core.CondOf(ec.cond)
+			pc, isCall := cd.X.(*ssa.Call)
+			if !isCall || core.StaticCallee(pc) != pf || (cd.Op != 0 && cd.Op != token.ILLEGAL) {
+				continue
+			}
+			val := ec.truth != cd.Neg // the value promote() had
+			if !val {
+				okG = true
+			}
+		}
+		r.Check(okG, "R05.9", key(fname(r, rv), "key dropped only when nothing was left to promote", sprintf("#%d", n)), pos(r, c), "objects.Delete under !promote()", "the key is removed from the bucket on a path where promote() did not report 'nothing left': remaining versions of the key are lost")
+	})
+	if n == 0 {
+		r.Unresolved("R05.9: rmVersion no longer removes emptied keys from bucket.objects")
+	}
 }
